@@ -15,7 +15,7 @@ NSHARDS = {"quick": 32, "thorough": 64}
 BUDGET_S = {"quick": 200, "thorough": 1800}
 MIN_HITS = {
     'quick': {"gen_accepted": 872, "build": 4360, "mutant": 10080, "mutant_accepted": 4154, "coinbase_tx": 95, "count>=253": 20, "scriptlen>=65536": 12},
-    'thorough': {"gen_accepted": 76894, "build": 384447, "mutant": 1075200, "mutant_accepted": 444103, "coinbase_tx": 6673, "count>=253": 28, "count>=65536": 2, "scriptlen>=65536": 5},
+    'thorough': {"gen_accepted": 76987, "build": 384912, "mutant": 1075200, "mutant_accepted": 444576, "coinbase_tx": 6697, "count>=253": 28, "count>=65536": 2, "scriptlen>=65536": 15},
 }
 
 COUNTS_Q = [0, 1, 2, 3, 252, 253, 254, 255, 256, 300]
@@ -214,6 +214,16 @@ def cases(ctx):
                 pos = r.randrange(len(outs) + 1)
                 outs.insert(pos, o)
                 steps.append({"op": "insert_output", "i": pos, "out": {"value": o["value"], "script": o["script"].hex()}})
+            elif x < 0.62:
+                # batch appends on a transaction that may already hold elements
+                if r.random() < 0.5:
+                    batch = [gen.gen_txin(r, script=gen.gen_script(r, 1)) for _ in range(r.randrange(1, 4))]
+                    ins.extend(batch)
+                    steps.append({"op": "add_inputs", "ins": [{"txid": b_["txid_wire"][::-1].hex(), "vout": b_["vout"], "script": b_["script"].hex(), "seq": b_["seq"]} for b_ in batch]})
+                else:
+                    batch = [gen.gen_txout(r, script=gen.gen_script(r, 1)) for _ in range(r.randrange(1, 4))]
+                    outs.extend(batch)
+                    steps.append({"op": "add_outputs", "outs": [{"value": b_["value"], "script": b_["script"].hex()} for b_ in batch]})
             elif x < 0.7:
                 version = gen.u32(r)
                 steps.append({"op": "set_version", "v": version, "adopt": r.random() < 0.5})
